@@ -15,6 +15,7 @@ import PoetryVerif.Proofs.MarkerPrint4
 import PoetryVerif.Proofs.MarkerPrintCharsQ
 import PoetryVerif.Proofs.MarkerPrint4L
 import PoetryVerif.Proofs.MarkerPrint4LL
+import PoetryVerif.Proofs.MarkerPrintQuote
 import PoetryVerif.Proofs.PyConvPairFinal
 import PoetryVerif.Proofs.PyConvPairCompat
 
@@ -379,19 +380,20 @@ theorem print_parse_lists {C : String → Prop}
 example : (M.toStr (.leaf (.single ⟨"sys_platform", "in", "a", true, .gen (.s (.atom ⟨"a", .in_, false⟩))⟩))).toOption =
     some "\"a\" in sys_platform" := by decide +kernel
 
-/-- **Character level with both quote characters** (repo fix 3046ca3: a value holding a double quote is written
-between single quotes): the text of every tree whose items use names and operators of the grammar and WRITABLE
-values parses back to the tree.  Writable (`ValOkQ`): no `"`, `\`, newline — or holding a `"` and no `'`
-(then `\` and newlines are harmless: SINGLE_QUOTED_STRING is `/'([^'])*'/`).  Not writable, and why: a value with
-both quote characters (neither string form of the grammar can carry it, `_quoted` does not escape); a value
-without `"` that holds `\` or a newline (it is written in double quotes, where ESCAPED_STRING treats `\"` as an
-escaped quote and `.` stops at a newline). -/
+/-- **Character level with both quote characters** (repo fixes 3046ca3, 7b51c5a: a value holding a double quote or
+a backslash and no single quote is written between single quotes): the text of every tree whose items use names and
+operators of the grammar and WRITABLE values parses back to the tree.  Writable (`ValOkQ`): no `"`, `\`, newline —
+or holding a `"` or a `\` and no `'` (then newlines are harmless: SINGLE_QUOTED_STRING is `/'([^'])*'/`).  Not
+writable, and why: a value with a single quote together with a `"` or a `\` (neither string form of the grammar can
+carry both quote characters, `_quoted` does not escape; with `'` and `\` it is written in double quotes, where
+ESCAPED_STRING treats `\"` as an escaped quote); a value without `"` and `\` that holds a newline (written in double
+quotes, where `.` stops at a newline). -/
 theorem print_parse_chars_quotes (t : Syn) (hl : t.LexableQ) : parseText t.text = .ok t := parseText_textQ t hl
 
 /-- `sys_platform == 'a"b\c'` is written in single quotes and read back -/
 example : (Syn.one (.item "sys_platform" "==" "a\"b\\c" false)).LexableQ ∧
     (Syn.one (.item "sys_platform" "==" "a\"b\\c" false)).text = "sys_platform == 'a\"b\\c'" := by
-  refine ⟨⟨by decide, by decide, Or.inr ⟨by decide, by decide⟩⟩, by decide⟩
+  refine ⟨⟨by decide, by decide, Or.inr ⟨Or.inl (by decide), by decide⟩⟩, by decide⟩
 
 /-- **Marker text with `python_version` lists AND `python_full_version` leaves, no hypothesis**: as
 `print_parse_lists`, on markers that may also hold `python_full_version` leaves with the seven operators (the
@@ -446,5 +448,61 @@ theorem print_parse_lists_both {C : String → Prop}
       exact mIntersect_sound S ha hb hr
     · simp only [if_true] at hr ⊢
       exact mUnion_sound S ha hb hr
+
+/-- **Marker text with values holding a double quote, at marker level, no hypothesis**: on markers over string
+leaves with the four operators and `extra` leaves whose `==` / `!=` values may hold a double quote or a backslash (no
+single quote, no white space, `|`, `,`; written in single quotes by `_quoted`, repo fixes 3046ca3, 7b51c5a),
+`python_version` and
+`python_full_version` with the seven operators and lists — `str(m)` is read back by `parse_marker`'s grammar to the
+tree of `m` (`parseText_textQ`), compacting it gives a marker of the domain that validates to the truth of `m`, and
+intersection / union stay in the domain and are exact.  The constructor facts for such values are C06's proofs redone
+over `GTok` (the constraint pattern and the generic constraint parser never look at quotes for `==` / `!=`).  The
+reversed-operand leaves (`"v" in name`) keep quote-free values: the constructor writes them between double quotes
+(`f'"{value}" {op}'`) and reads them with the backtracking pattern `STR_CMP_CONSTRAINT`, whose model lemmas
+(`matchStrCmp_rev`, `gparseWith_rev`) are stated for values without quotes. -/
+theorem print_parse_quotes {C : String → Prop}
+    (hC : ∀ u v, C u → C v → Generic.strIn u v = true ∨ Generic.strIn v u = true)
+    {ex : List String} (hX : E.extras = some ex) {X Y Z : Nat} (hE : EnvPy E X Y Z) :
+    (∀ {m : M} {t : Syn}, M.Good (FullQQ C E) m → M.toSyn m = some t →
+      ∃ s, M.toStr m = .ok s ∧ parseText s = .ok t ∧
+        ∃ m', compactRaw t = .ok m' ∧ M.Good (FullQQ C E) m' ∧ M.validate E m' = .ok (M.sem (leafEval E) m)) ∧
+    (∀ {a b r : M} {isUnion : Bool}, M.Good (FullQQ C E) a → M.Good (FullQQ C E) b →
+      (if isUnion then mUnion fuel stk a b else mIntersect fuel stk a b) = .ok r →
+      M.Good (FullQQ C E) r ∧ M.sem (leafEval E) r =
+        (if isUnion then (M.sem (leafEval E) a || M.sem (leafEval E) b)
+          else (M.sem (leafEval E) a && M.sem (leafEval E) b))) ∧
+    (∀ l, FullQLL C E l → FullQQ C E l) := by
+  have S := leafSpec_fullQQ hC hX hE
+  refine ⟨fun {m t} hg h => ?_, fun {a b r isUnion} ha hb hr => ?_, fun l hl => fullQLL_fullQQ hl⟩
+  · obtain ⟨s, h1, h2, m', h3, h4, h5⟩ :=
+      M.parseText_toStrQ S (printOK_fullQQ hX) (fun l hl => lexableQ_fullQQ l hl) hg h
+    refine ⟨s, h1, h2, m', h3, h4, ?_⟩
+    rw [M.validate_eq_sem E m' (M.good_mono (fun l hl => fullQQ_evaluable hX hE hl) m' h4)]
+    exact congrArg _ h5
+  · cases isUnion
+    · simp only [Bool.false_eq_true, if_false] at hr ⊢
+      exact mIntersect_sound S ha hb hr
+    · simp only [if_true] at hr ⊢
+      exact mUnion_sound S ha hb hr
+
+/-- `sys_platform == 'a"b'` is a leaf of that domain (in any environment defining `sys_platform`), built by the
+constructor from `==a"b`, and printed in single quotes -/
+example (C : String → Prop) (v : String) (hv : E.get? "sys_platform" = some v) :
+    FullQQ C E (.single ⟨"sys_platform", "==", "a\"b", false, .gen (.s (.atom ⟨"a\"b", .eq, false⟩))⟩) ∧
+    mkSingle "sys_platform" "==a\"b" false =
+      .ok ⟨"sys_platform", "==", "a\"b", false, .gen (.s (.atom ⟨"a\"b", .eq, false⟩))⟩ ∧
+    leafText "sys_platform" "==" "a\"b" false = "sys_platform == 'a\"b'" := by
+  have hq : QuoteValue "a\"b" := by
+    refine ⟨⟨⟨by decide, ?_⟩, by decide⟩, Or.inr ⟨Or.inl (by decide), by decide⟩⟩
+    intro c hc
+    simp at hc
+    rcases hc with rfl | rfl | rfl <;> (unfold gPlain; decide)
+  refine ⟨Or.inl (Or.inl (Or.inl ⟨?_, by decide, ?_⟩)), ?_, by decide⟩
+  · exact ⟨by decide, by decide, ⟨v, hv⟩, rfl, _, rfl, rfl, rfl, rfl, rfl⟩
+  · intro x hx
+    simp only [leafAtoms, Leaf.c, Generic.GC.atoms, Generic.GS.atoms, List.mem_singleton] at hx
+    subst hx
+    exact hq
+  · exact mkSingle_string_eqG "sys_platform" "a\"b" (by decide) hq.1.1 hq.1.2
 
 end Poetry.C13
